@@ -160,6 +160,9 @@ func runC05(c *Ctx) {
 	D0 := "obj(makeslice<[]uint8>(bin<+>(" + el + ", 6), bin<+>(" + el + ", 6)), call<repo/pkg/bech32/internal/base32.Encode>(alt(self, slice(self, 0, " + el + ")), p1))"
 	D := "obj(makeslice<[]uint8>(bin<+>(" + el + ", 6), bin<+>(" + el + ", 6)), call<repo/pkg/bech32/internal/base32.Encode>(alt(self, slice(self, 0, " + el + ")), p1), call<builtin.copy>(slice(self, " + el + ", none), call<*>(call<strings.ToLower>(p0), slice(" + D0 + ", 0, " + el + "))))"
 	lowerStr := "call<(*strings.Builder).String>(obj(alloc<strings.Builder>, call<(*strings.Builder).WriteString>(self, p0), call<(*strings.Builder).WriteByte>(self, 49), call<(*strings.Builder).WriteString>(self, call<*>(load(global<repo/pkg/bech32.charset>), " + D + "))))"
+	// … or the characters appended by charset.encode straight to the builder it is handed
+	lowerStrB := "call<(*strings.Builder).String>(obj(alloc<strings.Builder>, call<(*strings.Builder).WriteString>(self, p0), call<(*strings.Builder).WriteByte>(self, 49), call<*>(load(global<repo/pkg/bech32.charset>), self, " + D + ")))"
+	lowerStr = "alt(" + lowerStr + ", " + lowerStrB + ")"
 	sameCase := plainEdges(edgesMatching(b, "bin<==>(p0, call<strings.ToLower>(p0))", "bin<==>(call<strings.ToLower>(p0), p0)"))
 	otherCase := plainEdges(edgesMatching(b, "bin<!=>(p0, call<strings.ToLower>(p0))", "bin<!=>(call<strings.ToLower>(p0), p0)"))
 	nLower, nUpper := 0, 0
@@ -184,6 +187,9 @@ func runC05(c *Ctx) {
 			nLower++
 			r.Check(under(rc, sameCase), "C05.checksum-flow.lower-iff", pos, "the string is returned as built only when hrp == ToLower(hrp)")
 			encodeFn = c.calleeMatching("call<*>(load(global<repo/pkg/bech32.charset>), _)", t)
+			if encodeFn == nil {
+				encodeFn = c.calleeMatching("call<*>(load(global<repo/pkg/bech32.charset>), self, _)", t)
+			}
 			createFn = c.calleeMatching("call<*>(call<strings.ToLower>(p0), slice(_, 0, _))", t)
 			continue
 		}
@@ -228,6 +234,21 @@ func runC05(c *Ctx) {
 		for _, e := range ana.Exits(encodeFn) {
 			if e.Panic {
 				r.Viol("C05.charset-encode.no-panic", c.ipos(e.Instr), "panic in charset.encode")
+				continue
+			}
+			if len(e.Results) == 0 && len(encodeFn.Params) == 3 {
+				// encode(dst *strings.Builder, src): the characters are appended to dst, nothing else is done to it
+				t := eb.Of(encodeFn.Params[1], e.Instr)
+				_, ok := ana.MatchAny(t,
+					"obj(p1, call<(*strings.Builder).Grow>(self, len(p2)), maybe(call<(*strings.Builder).WriteByte>(self, load(iaddr(faddr<#0>(p0), load(iaddr(p2, bin<+>(ind<+1>(-1), 1))))))))",
+					"obj(p1, maybe(call<(*strings.Builder).WriteByte>(self, load(iaddr(faddr<#0>(p0), load(iaddr(p2, bin<+>(ind<+1>(-1), 1))))))))")
+				whole := false
+				for _, l := range rangeLoopsAll(eb) {
+					if l.Coll.IsParam(2) {
+						whole = true
+					}
+				}
+				r.Check(ok && whole, "C05.charset-encode.table-walk", c.ipos(e.Instr), "encode(dst, src) appends enc[src[0]] enc[src[1]] … for every element in order: %s", short(t.String(), 260))
 				continue
 			}
 			t := eb.Of(e.Results[0], e.Instr)
